@@ -25,7 +25,7 @@
    sequences (C17's SMInv) lifted through can_connect_colorize. *)
 From Coq Require Import List String NArith Bool.
 From HV Require Import Partition.Base GraphAlg.Model Partition.Model Partition.WF Partition.PWF
-                       Partition.Full Partition.PFull Partition.PFullW Partition.PFullI Gen.OpsTable.
+                       Partition.Full Partition.PFull Partition.PFullW Partition.PFullI Partition.PFullE Gen.OpsTable.
 Import ListNotations.
 Open Scope N_scope.
 Open Scope string_scope.
@@ -58,11 +58,12 @@ Print Assumptions C18_WellFormed_b_sound_partial.
        "the merged edges of a group form a tree whose edges respect Pull<=Comp<=Push with Pull
        out-degree <= 1 and Push in-degree <= 1, hence no second internal edge" (can_connect_colorize
        is modelled, Full.can_connect, but no invariant about ps_colors is carried by PInv yet)
-     - W4 first half (no direct operator->operator edge across subgraphs, no handoff->handoff edge):
-       needs one more conjunct in PFullI.IInv classifying every edge of the growing graph as
-       "original and (handoff-adjacent or not in handoff_edges)" or "half of a split edge"; with
-       PInv.pi_merged and the class/subgraph correspondence of W1 the clause follows (plus the
-       front-end fact "no adjacent handoffs" in flat_ok_b)
+     - (W4, edge half, is now PROVED below: every edge of the output is an original edge that touches
+       a handoff or joins two members of one subgraph, or one half of a split edge -- PFullE.EInv)
+     - W4, handoff half (one producer, at most one consumer, in different subgraphs unless the handoff
+       carries a delay mark): the producer/consumer lists follow from PFullE.edge_class by counting;
+       "different subgraphs" for INSERTED handoffs needs the colour-tree invariant of W3, for user
+       handoffs it follows from SMInv.inv_acyclic
      - W6 / W7: need (a) that sm_subgraphs lists the classes in an order compatible with
        C17_sm_group_order (quotient edges go forward), and (b) a specification of contig /
        make_loops_contiguous (output is a permutation of the flat order, every loop's descendants
@@ -82,6 +83,14 @@ Theorem C18_W5_all_graphs_partial : forall (T : optable) (g p : graph),
   flat_ok_b T g = true -> flat_marks_ok_b g = true -> partition_model T g = POk p -> W5 T p.
 Proof. exact W5_all. Qed.
 Print Assumptions C18_W5_all_graphs_partial.
+
+(* the edge half of clause W4: no direct operator -> operator edge across subgraphs, no handoff ->
+   handoff edge.  [flat_adj_ok_b]: the front end never leaves an edge between two handoffs. *)
+Theorem C18_W4_edges_all_graphs_partial : forall (T : optable) (g p : graph),
+  flat_ok_b T g = true -> flat_adj_ok_b g = true -> partition_model T g = POk p ->
+  forall e, In e (g_edges p) -> edge_ok p e.
+Proof. exact W4_edges_all. Qed.
+Print Assumptions C18_W4_edges_all_graphs_partial.
 
 (* the progress loop of the model is total and keeps its invariant *)
 Theorem C18_progress_loop_total_partial : forall (T : optable) (g p : graph),
